@@ -254,13 +254,26 @@ class Unclassified(Exception):
     """A registered function has no row in the table (harness error)."""
 
 
-def classify(registered_names):
-    """Fail closed: every registered function must have a row, except the
-    volatile four.  Returns the sorted list of names that have rows and are
-    registered."""
-    missing = sorted(n for n in registered_names
-                     if n not in TABLE and n not in VOLATILE)
-    if missing:
+def unclassified(registered_names):
+    """Registered functions that have no row (functions added to the library
+    after the table was written)."""
+    return sorted(n for n in registered_names
+                  if n not in TABLE and n not in VOLATILE)
+
+
+def classify(registered_names, strict=False):
+    """The sorted list of names that have rows and are registered.  A
+    registered function without a row cannot be judged (its parameter kinds
+    are unknown): it is reported on stderr and left out - adding a function
+    to the library is not a violation of any property.  ``strict`` (used by
+    the self test on the unchanged tree) raises instead."""
+    missing = unclassified(registered_names)
+    if missing and not strict:
+        import sys
+        print('NOTE: registered functions without a row in '
+              'xlmc/gen/functable.py are not judged: %s' % ', '.join(missing),
+              file=sys.stderr)
+    if missing and strict:
         raise Unclassified(
             'registered functions without a row in xlmc/gen/functable.py: %s '
             '(add parameter kinds and a valid baseline call)'
@@ -311,7 +324,7 @@ def selftest():
         assert 0 <= row.required <= len(row.base) or row.params[-1][
             1].startswith('*'), name
     try:
-        classify(['SUM', 'NOW', 'BRANDNEW'])
+        classify(['SUM', 'NOW', 'BRANDNEW'], strict=True)
     except Unclassified as exc:
         assert 'BRANDNEW' in str(exc) and 'NOW' not in str(exc)
     else:
